@@ -257,6 +257,34 @@ func c11(ctx *Ctx) {
 			}
 		}
 	}
+	// a base definition mixed into three typed composite definitions through allOf, one of which (the holder) has a property of the type of
+	// another (the target): no cycle anywhere. The three definition names take every order, because definitions are generated by name and
+	// what is "under way" when the target is reached depends on it; the holder's property is a reference or an inline allOf over the base
+	var mixins []SCase
+	names := []string{"Alpha", "Mid", "Zeta"}
+	for _, perm := range [][3]int{{0, 1, 2}, {0, 2, 1}, {1, 0, 2}, {1, 2, 0}, {2, 0, 1}, {2, 1, 0}} {
+		for _, inline := range []bool{false, true} {
+			user, holder, target := names[perm[0]], names[perm[1]], names[perm[2]]
+			ref := func(n string) J { return J{"$ref": "#/$defs/" + n} }
+			targetBody := func() J {
+				return J{"type": "object", "allOf": A{ref("Entity"), J{"type": "object", "properties": J{"name": J{"type": "string", "minLength": 2}, "employees": J{"type": "integer", "minimum": 0}}, "required": A{"name"}}}}
+			}
+			var customer J = ref(target)
+			if inline {
+				customer = targetBody()
+			}
+			defs := J{
+				"Entity": J{"type": "object", "properties": J{"id": J{"type": "string"}, "created": J{"type": "integer"}}},
+				user:     J{"type": "object", "allOf": A{ref("Entity"), J{"type": "object", "properties": J{"iban": J{"type": "string"}}}}},
+				holder:   J{"type": "object", "allOf": A{ref("Entity"), J{"type": "object", "properties": J{"total": J{"type": "number"}, "customer": customer}}}},
+				target:   targetBody(),
+			}
+			id := fmt.Sprintf("C11/mixin/user=%s,holder=%s,target=%s/inline=%v", user, holder, target, inline)
+			mixins = append(mixins, SCase{ID: id, Cfg: baseCfg(), Axes: map[string]string{"pos": "mixin", "leaf": fmt.Sprintf("%v/inline=%v", perm, inline), "composite": "allOf"},
+				Schema: J{"type": "object", "properties": J{"u": ref(user), "h": ref(holder), "t": ref(target)}, "$defs": defs}})
+		}
+	}
+	runBehaviour(ctx, behaviour{Name: "mixin", Cases: mixins, Devs: c11Devs, K: 1})
 	runBehaviour(ctx, behaviour{Name: "nested-composite", Cases: nested, Devs: c11Devs,
 		DocGen: func(sc *SCase, m *refmodel.Model) []refmodel.Doc {
 			// every assignment of the outer "l" (absent / valid) and of "child" (absent, {}, a Leaf, an Other, both, a wrong-typed l)
